@@ -399,3 +399,90 @@ Proof.
   intro s. repeat split; try solve [apply parse_alpha16_total | apply parse_adc16_total | apply parse_adc32_total
                                      | apply parse_cb_total | apply parse_lit_total]; apply parse_pwb_panic_iff.
 Qed.
+
+(* ---- the component parsers, each exact on its own -------------------------------------------------------- *)
+Lemma parse_main_adc16 s b c : parse_main s = Ok (KAdc16 b c) -> parse_adc16 s = Ok (b, c).
+Proof.
+  unfold parse_main. destruct s as [|a r]; [discriminate|].
+  destruct (a =? 65). { intro H. apply bind_ok in H as (u & _ & H). discriminate. }
+  destruct ((a =? 66) || (a =? 67)).
+  2:{ destruct (a =? 80). { intro H. apply bind_ok in H as (u & _ & H). discriminate. }
+      destruct (a =? 84). { intro H. apply bind_ok in H as (u & _ & H). discriminate. }
+      destruct (a =? 77); [|discriminate]. intro H. apply bind_ok in H as (u & _ & H). discriminate. }
+  unfold parse_alpha16. destruct (a =? 67). { intro H. apply bind_ok in H as (u & _ & H). discriminate. }
+  destruct (a =? 66); [|discriminate]. intro H. apply bind_ok in H as ([x y] & P & H). inv H. exact P.
+Qed.
+Lemma parse_main_adc32 s b c : parse_main s = Ok (KAdc32 b c) -> parse_adc32 s = Ok (b, c).
+Proof.
+  unfold parse_main. destruct s as [|a r]; [discriminate|].
+  destruct (a =? 65). { intro H. apply bind_ok in H as (u & _ & H). discriminate. }
+  destruct ((a =? 66) || (a =? 67)).
+  2:{ destruct (a =? 80). { intro H. apply bind_ok in H as (u & _ & H). discriminate. }
+      destruct (a =? 84). { intro H. apply bind_ok in H as (u & _ & H). discriminate. }
+      destruct (a =? 77); [|discriminate]. intro H. apply bind_ok in H as (u & _ & H). discriminate. }
+  unfold parse_alpha16. destruct (a =? 67). { intro H. apply bind_ok in H as ([x y] & P & H). inv H. exact P. }
+  destruct (a =? 66); [|discriminate]. intro H. apply bind_ok in H as (u & _ & H). discriminate.
+Qed.
+Lemma parse_main_pwb s b : parse_main s = Ok (KPwb b) -> parse_pwb s = Ok b.
+Proof.
+  unfold parse_main. destruct s as [|a r]; [discriminate|].
+  destruct (a =? 65). { intro H. apply bind_ok in H as (u & _ & H). discriminate. }
+  destruct ((a =? 66) || (a =? 67)).
+  { unfold parse_alpha16. destruct (a =? 67). { intro H. apply bind_ok in H as (u & _ & H). discriminate. }
+    destruct (a =? 66); [|discriminate]. intro H. apply bind_ok in H as (u & _ & H). discriminate. }
+  destruct (a =? 80). { intro H. apply bind_ok in H as (u & P & H). inv H. exact P. }
+  destruct (a =? 84). { intro H. apply bind_ok in H as (u & _ & H). discriminate. }
+  destruct (a =? 77); [|discriminate]. intro H. apply bind_ok in H as (u & _ & H). discriminate.
+Qed.
+
+Theorem component_parsers_exact_lemma : forall s,
+  (forall b c, parse_adc16 s = Ok (b, c) <-> In (s, KAdc16 b c) documented_names)
+  /\ (forall b c, parse_adc32 s = Ok (b, c) <-> In (s, KAdc32 b c) documented_names)
+  /\ (forall b, parse_pwb s = Ok b <-> In (s, KPwb b) documented_names)
+  /\ (forall k, parse_alpha16 s = Ok k <->
+                In (s, k) documented_names /\ match k with KAdc16 _ _ | KAdc32 _ _ => True | _ => False end)
+  /\ (forall u, parse_trg s = Ok u <-> s = s_ATAT)
+  /\ (forall u, parse_trb3 s = Ok u <-> s = s_TRBA)
+  /\ (forall u, parse_mcvx s = Ok u <-> s = s_MCVX).
+Proof.
+  intro s.
+  assert (forall b c, parse_adc16 s = Ok (b, c) <-> In (s, KAdc16 b c) documented_names) as A16.
+  { intros b c. split.
+    - intro P. destruct (parse_adc_ok 66 16 adc16_channel 16 _ _ _ adc16_channel_spec P) as (name & mac & I & L & ->).
+      unfold documented_names. apply in_or_app; left. eapply (In_doc_adc 66 16 KAdc16); eassumption.
+    - intro I. apply parse_main_adc16. apply names_exact_lemma. exact I. }
+  assert (forall b c, parse_adc32 s = Ok (b, c) <-> In (s, KAdc32 b c) documented_names) as A32.
+  { intros b c. split.
+    - intro P. destruct (parse_adc_ok 67 32 adc32_channel 32 _ _ _ adc32_channel_spec P) as (name & mac & I & L & ->).
+      unfold documented_names. apply in_or_app; right. apply in_or_app; left. eapply (In_doc_adc 67 32 KAdc32); eassumption.
+    - intro I. apply parse_main_adc32. apply names_exact_lemma. exact I. }
+  split; [exact A16|]. split; [exact A32|]. split; [|split; [|repeat split]].
+  - intro b. split.
+    + intro P. destruct (parse_pwb_ok _ _ P) as (name & mac & dev & I & ->).
+      unfold documented_names. apply in_or_app; right. apply in_or_app; right. apply in_or_app; left.
+      unfold doc_pwb. apply in_map_iff. exists (b, (name, mac, dev)). split; [reflexivity|exact I].
+    + intro I. apply parse_main_pwb. apply names_exact_lemma. exact I.
+  - intro k. split.
+    + intro P. split; [apply parse_alpha16_sound; exact P|].
+      unfold parse_alpha16 in P. destruct s as [|a r]; [discriminate|].
+      destruct (a =? 67). { apply bind_ok in P as (u & _ & P). inv P. exact I. }
+      destruct (a =? 66); [|discriminate]. apply bind_ok in P as (u & _ & P). inv P. exact I.
+    + intros [I K]. destruct k as [b c|b c| | | |]; try contradiction.
+      * apply A16 in I. pose proof I as P. unfold parse_adc16, parse_adc in P.
+        unfold parse_alpha16. destruct s as [|a r]; [discriminate|].
+        destruct (first_is (a :: r) 66) eqn:F; cbn [negb orb] in P; [|discriminate].
+        cbn [first_is] in F. apply N.eqb_eq in F. subst a.
+        replace (66 =? 67) with false by reflexivity. replace (66 =? 66) with true by reflexivity.
+        rewrite I. reflexivity.
+      * apply A32 in I. pose proof I as P. unfold parse_adc32, parse_adc in P.
+        unfold parse_alpha16. destruct s as [|a r]; [discriminate|].
+        destruct (first_is (a :: r) 67) eqn:F; cbn [negb orb] in P; [|discriminate].
+        cbn [first_is] in F. apply N.eqb_eq in F. subst a.
+        replace (67 =? 67) with true by reflexivity. rewrite I. reflexivity.
+  - apply parse_lit_ok.
+  - intros ->. destruct u. reflexivity.
+  - apply parse_lit_ok.
+  - intros ->. destruct u. reflexivity.
+  - apply parse_lit_ok.
+  - intros ->. destruct u. reflexivity.
+Qed.
